@@ -70,7 +70,10 @@ def main():
         "checks": checks,
         "notes": "All checks: ./check <id> [--tier quick|thorough] [--replay file]; VERIF_SEED selects the PRNG seed. "
                  "Known findings: known_findings.json. See DESIGN.md.",
-        "not_applicable": NOT_APPLICABLE,
+        "not_applicable": NOT_APPLICABLE + [
+            {"property_id": "C%02d" % i,
+             "reason": "not claimed yet: the check for this property is still under construction (the technique applies; see DESIGN.md section 8)"}
+            for i in range(1, 21) if "C%02d" % i not in ENABLED and "C%02d" % i not in [n["property_id"] for n in NOT_APPLICABLE]],
     }
     json.dump(m, open(os.path.join(VERIF, "MANIFEST.json"), "w"), indent=1)
 
